@@ -474,3 +474,35 @@ func handlerFullByResource(c *core.Ctx) map[string]bool {
 	}
 	return out
 }
+
+// authHoldersByTypes lists "Struct.Field" for every struct field of
+// haproxy/types whose type is AuthExternal or *AuthExternal.
+func authHoldersByTypes(c *core.Ctx, _ []string) []string {
+	p := c.Pkg("haproxy/types")
+	if p == nil {
+		return nil
+	}
+	var out []string
+	scope := p.Types.Scope()
+	for _, n := range scope.Names() {
+		tn, ok := scope.Lookup(n).(*types.TypeName)
+		if !ok {
+			continue
+		}
+		st, ok := tn.Type().Underlying().(*types.Struct)
+		if !ok {
+			continue
+		}
+		for i := 0; i < st.NumFields(); i++ {
+			ft := st.Field(i).Type()
+			if pt, ok := ft.(*types.Pointer); ok {
+				ft = pt.Elem()
+			}
+			if nt, ok := ft.(*types.Named); ok && nt.Obj().Name() == "AuthExternal" && nt.Obj().Pkg() == p.Types {
+				out = append(out, n+"."+st.Field(i).Name())
+			}
+		}
+	}
+	sort.Strings(out)
+	return out
+}
